@@ -18,6 +18,8 @@
 #include <memory>
 #include <algorithm>
 #include <functional>
+#include <type_traits>
+#include <cstddef>
 #include <igris/datastruct/pool.h>
 #include <igris/container/pool.h>
 #include <igris/container/static_object_pool.h>
@@ -79,6 +81,31 @@ extern "C" void system_lock(void)
 extern "C" void system_unlock(void) { lock_depth--; }
 
 static std::string s(long long v) { return std::to_string(v); }
+static std::string early_report __attribute__((init_priority(101)));
+// Runs BEFORE main() and before every dynamic initialiser of default priority (the allocator's own statics,
+// e.g. `static igris::syslock lock;` in lin_realloc.cpp, the harness' globals): a bare-metal start-up code calls
+// malloc from constructors of static objects.  The allocator must work from its constant-initialised state
+// (__brkval == NULL, __flp == NULL, __malloc_heap_start == &_heap_start).
+struct EarlyHeapUser
+{
+    EarlyHeapUser()
+    {
+        char buf[200];
+        char *a = (char *)igv_malloc(10);
+        for (int i = 0; a && i < 10; i++) a[i] = (char)(i + 1);
+        char *b = (char *)igv_realloc(a, 100);
+        bool kept = b != nullptr;
+        for (int i = 0; b && i < 10; i++) kept = kept && b[i] == (char)(i + 1);
+        char *c = (char *)igv_malloc(0);
+        long brk3 = __brkval ? (long)(__brkval - _heap_start) : -1;
+        igv_free(b);
+        igv_free(c);
+        snprintf(buf, sizeof buf, "early a=%ld b=%ld c=%ld brk=%ld end=%ld fl=%d%s", a ? (long)(a - _heap_start) : -1, b ? (long)(b - _heap_start) : -1,
+                 c ? (long)(c - _heap_start) : -1, brk3, __brkval ? (long)(__brkval - _heap_start) : -1, __flp ? 1 : 0, kept ? "" : " PREFIX-LOST");
+        early_report = buf; // std::string with init_priority(101) too: constructed before this object (same TU, declared first)
+    }
+};
+static EarlyHeapUser early_heap_user __attribute__((init_priority(101)));
 static std::string su(size_t v) { return std::to_string((unsigned long long)v); }
 static uint64_t g_seed = 1;
 
@@ -353,7 +380,27 @@ static std::unique_ptr<HeapCase> HC;
 static size_t &hdr_of(char *p) { return ((size_t *)p)[-1]; }
 // a request that cannot be rounded up to a multiple of __WORDSIZE in a size_t: no block can satisfy it
 static bool unrepresentable(size_t n) { return n % __WORDSIZE && n > SIZE_MAX - (__WORDSIZE - n % __WORDSIZE); }
+// the request as the allocator sizes it (rounded up to __WORDSIZE, at least 8); only for representable requests
+static size_t rounded(size_t n)
+{
+    size_t len = n % __WORDSIZE ? n + (__WORDSIZE - n % __WORDSIZE) : n;
+    return len < 8 ? 8 : len;
+}
+// ADDRESS wrap-around: a chunk of `len` payload bytes whose header would sit at address `at` does not fit below the
+// top of the 64-bit address space (no block can satisfy such a request: NULL is the only admissible answer)
+static bool addr_wraps(const char *at, size_t n)
+{
+    if (unrepresentable(n)) return true;
+    size_t len = rounded(n);
+    return len > SIZE_MAX - 8 || len + 8 > SIZE_MAX - (size_t)(uintptr_t)at;
+}
+// a block the allocator handed out must lie inside the arena (checked BEFORE the harness touches it)
+static bool block_in_arena(const char *p, size_t n);
 
+static bool block_in_arena(const char *p, size_t n)
+{
+    return p >= HC->start + 8 && p <= HC->start + HC->cap && n <= (size_t)(HC->start + HC->cap - p);
+}
 static void heap_fill(Blk &b)
 {
     b.seed = HC->ctr++;
@@ -524,6 +571,26 @@ static void run_op(const std::vector<std::string> &w, const std::string &, out &
         o.result = "W=" + s(__WORDSIZE) + " szt=" + s(sizeof(size_t)) + " fl=" + s(sizeof(struct __freelist)) + " sl=" + s(sizeof(struct slist_head));
         return;
     }
+    if (op == "consts2")
+    {
+        // widths / alignments the model embeds, read out of the compiled code
+        igris::pool ip0;
+        auto it0 = ip0.begin();
+        struct __freelist fl0;
+        o.result = "int=" + s(sizeof(it0._num)) + " ptr=" + s(sizeof(void *)) + " sizemax=" + su(SIZE_MAX) + " hdr=" + s(sizeof(fl0.sz)) +
+                   " minchunk=" + s(sizeof(struct __freelist) - sizeof(size_t)) + " align=" + s(alignof(struct __freelist)) +
+                   " maxalign=" + s(alignof(max_align_t)) + " nx_off=" + s(offsetof(struct __freelist, nx));
+        if (!std::is_same<decltype(ip0.room()), size_t>::value) o.fail("room() is not size_t");
+        return;
+    }
+    if (op == "early")
+    {
+        o.result = early_report;
+        if (early_report.find("PREFIX-LOST") != std::string::npos || early_report.find("-1") != std::string::npos)
+            o.fail("allocator used before main(): " + early_report);
+        o.tag("before-main");
+        return;
+    }
     if (op == "reset")
     {
         PC.reset();
@@ -678,6 +745,10 @@ static void run_op(const std::vector<std::string> &w, const std::string &, out &
                 HC->start = _heap_start;
                 HC->cap = STATIC_ARENA;
             }
+            // the model assumes an arena address in [2^32, 2^47) (requests are generated so that their verdict is the
+            // same for every base in that range)
+            if ((uintptr_t)HC->start < (1ull << 32) || (uintptr_t)HC->start + HC->cap >= (1ull << 47)) o.fail("arena address outside [2^32, 2^47): the model's address assumption does not hold on this host");
+            if ((uintptr_t)HC->start % 8) o.fail("arena start not 8-aligned");
             A = (w.size() > 3 && w[3] == "rel") ? &API_REL : &API_DBG;
             if (A == &API_REL) o.tag("release-build");
             *A->heap_start = HC->start;
@@ -918,9 +989,18 @@ static void run_op(const std::vector<std::string> &w, const std::string &, out &
         {
             slot = atoi(w[1].c_str());
             size_t n = strtoul(w[2].c_str(), 0, 10);
+            const char *brk_addr = BRK ? BRK : HC->start;
+            bool was_empty = HC->live.empty();
             SW.begin(nullptr);
             char *p = (char *)A->malloc_(n);
             SW.end(o);
+            if (p && !block_in_arena(p, n))
+            {
+                // judged before the harness touches the block: it cannot be filled, the case ends here
+                o.fail("malloc(" + su(n) + ") returned a block that is not inside the arena [start, start + " + su(HC->cap) + ")");
+                o.result = "ret=outside";
+                return;
+            }
             if (p)
             {
                 Blk b{p, n, 0, hdr_of(p)};
@@ -936,9 +1016,16 @@ static void run_op(const std::vector<std::string> &w, const std::string &, out &
             else
             {
                 ret = "null";
-                if (!HC->lim && !unrepresentable(n)) o.fail("malloc returned NULL without a heap limit");
+                // without a heap end NULL is admissible only for a request no block can satisfy: its rounding wraps
+                // around SIZE_MAX, or the new chunk would reach across the top of the address space
+                if (!HC->lim && !addr_wraps(brk_addr, n)) o.fail("malloc returned NULL without a heap limit");
+                // "memory is not lost": on a heap without live blocks the whole arena is available again
+                if (HC->lim && was_empty && !unrepresentable(n) && rounded(n) <= HC->lim - 8 && HC->lim >= 8)
+                    o.fail("malloc(" + su(n) + ") failed on a heap without live blocks although " + su(HC->lim) + " bytes are configured");
                 o.tag("malloc-null");
+                if (!HC->lim && !unrepresentable(n)) o.tag("address-wrap-refused");
             }
+            if (p && was_empty && HC->lim && rounded(n) + 8 + 64 > HC->lim) o.tag("maximal-alloc-on-empty-heap");
             if (unrepresentable(n)) o.tag("request-rounding-wraps");
             if (p)
             {
@@ -949,6 +1036,24 @@ static void run_op(const std::vector<std::string> &w, const std::string &, out &
                 else o.tag("malloc-split");
             }
             if (n == 0) o.tag("size0");
+        }
+        else if (op == "mx")
+        {
+            // probe of finding C10-heap-arena-unbounded-by-default: a request larger than what is left of the arena,
+            // no heap end configured.  Judged without touching the block, which is released at once.
+            size_t n = strtoul(w[2].c_str(), 0, 10);
+            char *p = (char *)A->malloc_(n);
+            if (p && !block_in_arena(p, n)) o.fail("malloc(" + su(n) + ") returned a block that reaches " + su((size_t)(p - HC->start) + n - HC->cap) + " bytes behind the arena (no heap end configured: the break is unbounded)");
+            if (p) A->free_(p);
+            o.tag("probe-unbounded");
+        }
+        else if (op == "al")
+        {
+            // probe of finding C10-heap-align-max-align-t: is the payload aligned for max_align_t?
+            auto it = HC->live.find(atoi(w[1].c_str()));
+            if (it != HC->live.end() && (uintptr_t)it->second.p % alignof(max_align_t))
+                o.fail("payload at offset " + s(it->second.p - HC->start) + " is not aligned for max_align_t (" + s(alignof(max_align_t)) + ")");
+            o.tag("probe-maxalign");
         }
         else if (op == "f")
         {
@@ -986,10 +1091,17 @@ static void run_op(const std::vector<std::string> &w, const std::string &, out &
             auto it = HC->live.find(slot);
             if (it == HC->live.end())
             {
+                const char *brk_addr = BRK ? BRK : HC->start;
                 SW.begin(nullptr);
                 char *p = (char *)A->realloc_(nullptr, n);
                 SW.end(o);
                 o.tag("realloc-null-ptr");
+                if (p && !block_in_arena(p, n))
+                {
+                    o.fail("realloc(NULL, " + su(n) + ") returned a block that is not inside the arena");
+                    o.result = "ret=outside";
+                    return;
+                }
                 if (p)
                 {
                     Blk b{p, n, 0, hdr_of(p)};
@@ -1005,7 +1117,8 @@ static void run_op(const std::vector<std::string> &w, const std::string &, out &
                 else
                 {
                     ret = "null";
-                    if (!HC->lim && !unrepresentable(n)) o.fail("realloc(NULL, n) returned NULL without a heap limit");
+                    if (!HC->lim && !addr_wraps(brk_addr, n)) o.fail("realloc(NULL, n) returned NULL without a heap limit");
+                    if (!HC->lim && !unrepresentable(n)) o.tag("address-wrap-refused");
                 }
                 if (unrepresentable(n)) o.tag("request-rounding-wraps");
             }
@@ -1017,9 +1130,16 @@ static void run_op(const std::vector<std::string> &w, const std::string &, out &
                 std::vector<char> copy(old.p, old.p + old.n);
                 HC->live.erase(it);
                 // while realloc runs, the old block is still owned by the caller
+                const char *brk_addr = BRK ? BRK : HC->start;
                 SW.begin(old.p);
                 char *p = (char *)A->realloc_(old.p, n);
                 SW.end(o);
+                if (p && !block_in_arena(p, n))
+                {
+                    o.fail("realloc(p, " + su(n) + ") returned a block that is not inside the arena");
+                    o.result = "ret=outside";
+                    return;
+                }
                 if (p)
                 {
                     size_t keep = std::min(old.n, n);
@@ -1043,8 +1163,10 @@ static void run_op(const std::vector<std::string> &w, const std::string &, out &
                 else
                 {
                     ret = "null";
-                    if (!HC->lim && !unrepresentable(n)) o.fail("realloc returned NULL without a heap limit");
+                    // NULL without a heap end: only when ptr + len or the moved chunk would cross the top of the address space
+                    if (!HC->lim && !addr_wraps(old.p - 8, n) && !addr_wraps(brk_addr, n)) o.fail("realloc returned NULL without a heap limit");
                     if (unrepresentable(n)) o.tag("request-rounding-wraps");
+                    else if (!HC->lim) o.tag("address-wrap-refused");
                     // the old block must still be there, untouched
                     std::string why;
                     if (!heap_intact(old, old.n, old.p, why)) o.fail("failed realloc damaged the old block at " + why);
@@ -1413,6 +1535,88 @@ static void gen_heap_huge(rng &r, int ncases)
     }
 }
 
+// ADDRESS wrap-around without a heap end: requests so large that the new chunk (malloc step 3, the move path of
+// realloc) or `ptr + len` (realloc) would cross the top of the 64-bit address space.  All must be refused with the
+// heap unchanged; the history then goes on (a wrapped break would make later blocks overlap live ones).
+// Sizes are >= 2^64 - 2^32: the verdict is the same for every arena address in [2^32, 2^47).
+static void gen_heap_addrwrap(rng &r, int ncases)
+{
+    auto wrapsz = [&]() -> size_t {
+        unsigned k = (unsigned)r.below(5);
+        if (k == 0) return SIZE_MAX - 63 - 64 * (size_t)r.below(4);          // the largest representable requests
+        if (k == 1) return SIZE_MAX - 63 - 64 * (size_t)r.below(1u << 20);
+        if (k == 2) return SIZE_MAX - (size_t)r.below(1ull << 31);             // any residue (most need rounding)
+        if (k == 3) return SIZE_MAX - 63 - 8;                                   // rounds to SIZE_MAX - 63
+        return SIZE_MAX - (1ull << 32) + 1 + (size_t)r.below(1ull << 31);
+    };
+    for (int c = 0; c < ncases; c++)
+    {
+        printf("reset heap 0%s\n", c % 4 == 3 ? " rel" : "");
+        HGen g(r, 90);
+        for (int i = 0, n = (int)r.range(0, 5); i < n; i++) g.m(pick_size(r));
+        if (g.live.size() > 1 && r.chance(60)) g.f_at((size_t)r.below(g.live.size() - 1)); // a free chunk: step 1/2 cannot serve the request
+        for (int i = 0, n = (int)r.range(2, 7); i < n; i++)
+        {
+            unsigned k = (unsigned)r.below(4);
+            if (k == 0) printf("m %d %zu\n", 2000 + i, wrapsz());              // refused: slot stays empty
+            else if (k == 1 && !g.live.empty()) g.rr((size_t)r.below(g.live.size()), wrapsz()); // ptr + len wraps
+            else if (k == 2) printf("r %d %zu\n", 3000 + i, wrapsz());         // realloc(NULL, huge)
+            else g.m(pick_size(r));
+            if (r.chance(40)) g.m(pick_size(r));
+            if (r.chance(25) && g.live.size() > 1) g.f_at((size_t)r.below(g.live.size()));
+        }
+        for (int i = 0; i < 7; i++) printf("f %d\nf %d\n", 2000 + i, 3000 + i);
+        g.free_all((int)r.below(3));
+    }
+}
+
+// "memory is not lost": in an arena with a heap end, after ANY history whose blocks are all freed in ANY order the
+// heap is back in its initial state, so the largest request the arena can hold succeeds again (and one word more fails)
+static void gen_heap_maxalloc(rng &r, int ncases)
+{
+    for (int c = 0; c < ncases; c++)
+    {
+        size_t lim = 72 + 64 * (size_t)r.range(1, 60) + (c % 3 == 0 ? (size_t)r.below(64) : 0);
+        printf("reset heap %zu\n", lim);
+        HGen g(r, 90);
+        size_t maxreq = (lim - 8) / 64 * 64;
+        if (c % 5 == 0) printf("m 900 %zu\nf 900\n", maxreq);
+        for (int i = 0, n = (int)r.range(3, 40); i < n; i++)
+        {
+            unsigned k = (unsigned)r.below(100);
+            if (g.live.empty() || (k < 50 && (int)g.live.size() < g.max_live)) g.m((size_t)r.below(lim / 4 + 2));
+            else if (k < 80) g.f_at((size_t)r.below(g.live.size()));
+            else g.rr((size_t)r.below(g.live.size()), (size_t)r.below(lim / 3 + 2));
+        }
+        // slots whose malloc failed are NULL for the harness: free(NULL)
+        g.free_all(c % 3);
+        printf("m 901 %zu\n", maxreq + 1 + (size_t)r.below(64)); // one word too many: NULL, nothing changes
+        printf("m 902 %zu\n", maxreq - (size_t)r.below(64));     // the maximal request: must succeed
+        printf("r 902 %zu\nr 902 %zu\nf 902\nf 901\n", (size_t)r.below(maxreq + 1), maxreq);
+        printf("m 903 %zu\nf 903\n", maxreq);
+    }
+}
+
+// long inputs / boundary sizes: blocks of 255..257, 65535..65537 and >= 300 KiB bytes (the move path copies them),
+// in the 1 MiB static arena
+static void gen_heap_big(rng &r, int ncases)
+{
+    static const std::vector<size_t> big = {255, 256, 257, 4095, 4096, 4097, 65535, 65536, 65537, 307200, 310000};
+    for (int c = 0; c < ncases; c++)
+    {
+        printf("reset heap 0%s\n", c % 2 ? " rel" : "");
+        HGen g(r, 90);
+        size_t a = big[(size_t)c % big.size()];
+        g.m(a);
+        g.m(r.pick(big) % 70000);
+        g.rr(0, a + (size_t)r.range(1, 70000)); // blocked by the block above: malloc + memcpy of `a` bytes + free
+        g.m(a / 2);                              // reuses the hole (split)
+        g.rr(0, a);                              // shrink-split of the moved block
+        if (c % 3 == 0) g.rr(0, 307200 + (size_t)r.below(1000));
+        g.free_all((int)r.below(3));
+    }
+}
+
 // every history of exactly `depth` requests over the size alphabet `al`,
 // followed by the release of whatever is still live (ascending or descending)
 static long gen_heap_exhaustive(const std::vector<size_t> &al, int depth, bool with_realloc, long part, long nparts)
@@ -1683,6 +1887,8 @@ static void gen(rng &r, const std::string &tier)
 {
     bool th = tier == "thorough";
     puts("consts");
+    puts("consts2");
+    puts("early");
     // ---- pools: element sizes 8..64, capacities 1..33
     for (size_t cap = 1; cap <= 33; cap++)
         for (size_t k = 1; k <= 8; k++)
@@ -1740,6 +1946,21 @@ static void gen(rng &r, const std::string &tier)
     gen_heap_targeted(r, th ? 3000 : 360);
     gen_heap_huge(r, th ? 200 : 40);
     gen_heap_brim(r, th ? 360 : 72);
+    gen_heap_addrwrap(r, th ? 300 : 60);
+    gen_heap_maxalloc(r, th ? 400 : 60);
+    gen_heap_big(r, th ? 44 : 11);
+    // probes of the two recorded findings (excluded from the diff, expected to fail the oracle)
+    for (int i = 0; i < 3; i++)
+    {
+        puts("reset heap 0");
+        printf("m 0 %zu\n", (size_t)r.below(2000));
+        printf("@F:C10-heap-arena-unbounded-by-default mx 1 %zu\n", STATIC_ARENA + (size_t)r.below(1u << 20));
+        puts("m 2 64\nf 0\nf 2");
+        puts("reset heap 0");
+        puts("m 0 1");
+        puts("@F:C10-heap-align-max-align-t al 0");
+        puts("f 0");
+    }
     // the release build (NDEBUG): histories with up to 400 live blocks
     gen_heap_random(r, th ? 40 : 8, th ? 1500 : 600, true);
 }
